@@ -1,4 +1,5 @@
 mod catalog;
+mod drive;
 mod io;
 mod mem;
 mod portable;
@@ -37,6 +38,7 @@ fn main() {
     match cmd {
         "replay" => replay_cmd(&args),
         "one" => one_cmd(&args),
+        "drive" => drive::drive_cmd(&args),
         "ids" => {
             for id in catalog::IDS {
                 println!("{}", id);
